@@ -80,3 +80,273 @@ impl Default for Countdown {
         Self::new()
     }
 }
+
+// ---------------------------------------------------------------------------------------------
+// heap: guard region, growth-failure injector, virtual capacity
+// ---------------------------------------------------------------------------------------------
+
+use std::sync::atomic::AtomicUsize;
+
+/// Bytes allocated behind every heap's capacity and painted with a canary.
+pub const HEAP_GUARD: usize = 64;
+const CANARY: u8 = 0xA5;
+
+/// # Safety
+/// `p` must point to HEAP_GUARD writable bytes.
+pub unsafe fn paint_guard(p: *mut u8) {
+    unsafe { std::ptr::write_bytes(p, CANARY, HEAP_GUARD) }
+}
+
+/// # Safety
+/// `p` must point to HEAP_GUARD readable bytes.
+pub unsafe fn guard_intact(p: *const u8) -> bool {
+    let s = unsafe { std::slice::from_raw_parts(p, HEAP_GUARD) };
+    s.iter().all(|b| *b == CANARY)
+}
+
+/// Fails the n-th heap growth attempt from now (one shot).
+pub static GROW_FAIL: Countdown = Countdown::new();
+/// Number of growth attempts seen since the last reset (counted while armed or injecting).
+pub static GROW_ATTEMPTS: AtomicU64 = AtomicU64::new(0);
+/// 0 = off; otherwise heaps report no free space beyond this many bytes (one shot: the growth
+/// attempt it provokes fails and the limit is lifted).
+pub static VIRT_LIMIT: AtomicUsize = AtomicUsize::new(0);
+
+pub fn virtual_limit() -> Option<usize> {
+    match VIRT_LIMIT.load(Ordering::Relaxed) {
+        0 => None,
+        n => Some(n),
+    }
+}
+
+pub fn grow_should_fail(byte_len: usize, byte_cap: usize) -> bool {
+    GROW_ATTEMPTS.fetch_add(1, Ordering::Relaxed);
+    let limit = VIRT_LIMIT.load(Ordering::Relaxed);
+    let fail = if limit != 0 && byte_len + 8 > limit.min(byte_cap.max(limit)) && byte_len <= limit {
+        VIRT_LIMIT.store(0, Ordering::SeqCst);
+        true
+    } else {
+        GROW_FAIL.tick()
+    };
+    if fail {
+        emit(|| format!("\"ev\":\"grow_fail\",\"len\":{},\"cap\":{}}}", byte_len, byte_cap));
+    } else {
+        emit(|| format!("\"ev\":\"grow\",\"len\":{},\"cap\":{}}}", byte_len, byte_cap));
+    }
+    fail
+}
+
+// ---------------------------------------------------------------------------------------------
+// dispatch loop: instruction counter and interrupt-at-n
+// ---------------------------------------------------------------------------------------------
+
+/// Raises the interrupt flag when the n-th instruction from now is about to be dispatched.
+pub static INSTR: Countdown = Countdown::new();
+pub static INSTR_COUNT: AtomicU64 = AtomicU64::new(0);
+pub static COUNT_INSTR: AtomicBool = AtomicBool::new(false);
+
+#[inline]
+pub fn on_instruction() -> bool {
+    if COUNT_INSTR.load(Ordering::Relaxed) {
+        INSTR_COUNT.fetch_add(1, Ordering::Relaxed);
+    }
+    INSTR.tick()
+}
+
+// ---------------------------------------------------------------------------------------------
+// atom table: step events and yield points
+// ---------------------------------------------------------------------------------------------
+
+static ATOM_INIT_SIZE: AtomicUsize = AtomicUsize::new(0);
+
+pub fn set_atom_table_init_size(n: usize) {
+    ATOM_INIT_SIZE.store(n, Ordering::SeqCst);
+}
+
+pub fn atom_table_init_size() -> Option<usize> {
+    match ATOM_INIT_SIZE.load(Ordering::Relaxed) {
+        0 => None,
+        n => Some(n),
+    }
+}
+
+thread_local! {
+    static TID: std::cell::Cell<u32> = const { std::cell::Cell::new(0) };
+}
+
+pub fn set_tid(t: u32) {
+    TID.with(|c| c.set(t));
+}
+
+pub fn tid() -> u32 {
+    TID.with(|c| c.get())
+}
+
+type YieldFn = Box<dyn Fn(u32, &str) + Send + Sync>;
+static YIELD: std::sync::RwLock<Option<YieldFn>> = std::sync::RwLock::new(None);
+/// Only texts with this prefix are traced / yielded on (keeps boot-time interning out of traces).
+static ATOM_TRACE_PREFIX: Mutex<String> = Mutex::new(String::new());
+static ATOM_TRACE_ON: AtomicBool = AtomicBool::new(false);
+
+pub fn set_yield(f: Option<YieldFn>) {
+    *YIELD.write().unwrap_or_else(|e| e.into_inner()) = f;
+}
+
+pub fn set_atom_trace(prefix: Option<&str>) {
+    match prefix {
+        Some(p) => {
+            *ATOM_TRACE_PREFIX.lock().unwrap_or_else(|e| e.into_inner()) = p.to_string();
+            ATOM_TRACE_ON.store(true, Ordering::SeqCst);
+        }
+        None => ATOM_TRACE_ON.store(false, Ordering::SeqCst),
+    }
+}
+
+/// One step of `AtomTable::build_with` (called after the step's state change).
+pub fn atom_step(step: &str, text: &str, index: u64) {
+    if !ATOM_TRACE_ON.load(Ordering::Relaxed) {
+        return;
+    }
+    {
+        let p = ATOM_TRACE_PREFIX.lock().unwrap_or_else(|e| e.into_inner());
+        if !text.starts_with(p.as_str()) {
+            return;
+        }
+    }
+    let t = tid();
+    emit(|| {
+        format!(
+            "\"ev\":\"atom\",\"tid\":{},\"step\":\"{}\",\"text\":\"{}\",\"atom\":{}}}",
+            t, step, text, index
+        )
+    });
+    if let Some(f) = YIELD.read().unwrap_or_else(|e| e.into_inner()).as_ref() {
+        f(t, step);
+    }
+}
+
+/// Intern `text` in the process-wide atom table; returns the atom's index and its text read back.
+pub fn intern(text: &str) -> (u64, String) {
+    let tbl = crate::atom_table::AtomTable::new().expect("atom table");
+    let a = crate::atom_table::AtomTable::build_with(&tbl, text);
+    (a.index, a.as_str().to_string())
+}
+
+/// Text of the atom with this index (as any holder of the atom would read it).
+pub fn atom_text(index: u64) -> String {
+    crate::atom_table::Atom { index }.as_str().to_string()
+}
+
+// ---------------------------------------------------------------------------------------------
+// stand-alone heap probe (capacity arithmetic, PStr layout)
+// ---------------------------------------------------------------------------------------------
+
+use crate::machine::heap::Heap;
+use crate::types::HeapCellValue;
+
+pub struct HeapProbe {
+    heap: Heap,
+}
+
+impl HeapProbe {
+    pub fn with_cell_capacity(cells: usize) -> Option<HeapProbe> {
+        Heap::with_cell_capacity(cells).ok().map(|heap| HeapProbe { heap })
+    }
+    pub fn byte_len(&self) -> usize {
+        self.heap.byte_len()
+    }
+    pub fn cap_and_guard(&self) -> (usize, bool) {
+        self.heap.verif_cap_and_guard()
+    }
+    pub fn push_cell(&mut self) -> bool {
+        self.heap.push_cell(HeapCellValue::from_bytes([0u8; 8])).is_ok()
+    }
+    pub fn truncate(&mut self, cells: usize) {
+        self.heap.truncate(cells)
+    }
+    pub fn allocate_pstr(&mut self, s: &str) -> bool {
+        self.heap.allocate_pstr(s).is_ok()
+    }
+    pub fn allocate_cstr(&mut self, s: &str) -> bool {
+        self.heap.allocate_cstr(s).is_ok()
+    }
+    pub fn compute_pstr_size(s: &str) -> usize {
+        Heap::compute_pstr_size(s)
+    }
+    /// copy the partial string starting at byte offset `loc` to the end of the heap
+    pub fn copy_pstr_within(&mut self, loc: usize) -> Option<usize> {
+        self.heap.copy_pstr_within(loc).ok()
+    }
+    pub fn copy_slice_to_end(&mut self, from_cell: usize, to_cell: usize) -> bool {
+        self.heap.copy_slice_to_end(from_cell..to_cell).is_ok()
+    }
+    pub fn append_cells(&mut self, n: usize) -> bool {
+        let mut other = match Heap::with_cell_capacity(n.max(1)) {
+            Ok(h) => h,
+            Err(_) => return false,
+        };
+        for _ in 0..n {
+            if other.push_cell(HeapCellValue::from_bytes([0u8; 8])).is_err() {
+                return false;
+            }
+        }
+        self.heap.append(&other).is_ok()
+    }
+    pub fn reserve_and_write(&mut self, reserve_cells: usize, write_cells: usize) -> bool {
+        match self.heap.reserve(reserve_cells) {
+            Ok(mut w) => {
+                w.write_with(|section| {
+                    for _ in 0..write_cells {
+                        section.push_cell(HeapCellValue::from_bytes([0u8; 8]));
+                    }
+                });
+                true
+            }
+            Err(_) => false,
+        }
+    }
+    /// the characters of the partial string at byte offset `loc`
+    pub fn read_pstr(&self, loc: usize) -> String {
+        self.heap.char_iter(loc).collect()
+    }
+}
+
+// ---------------------------------------------------------------------------------------------
+// re-exports of units under test
+// ---------------------------------------------------------------------------------------------
+
+use crate::parser::char_reader::{CharRead, CharReader};
+
+/// The real `CharReader` over a caller-supplied byte source (C18).
+pub struct CharReaderProbe {
+    inner: CharReader<Box<dyn std::io::Read>>,
+}
+
+impl CharReaderProbe {
+    pub fn new(src: Box<dyn std::io::Read>) -> Self {
+        CharReaderProbe { inner: CharReader::new(src) }
+    }
+    pub fn read_char(&mut self) -> Option<std::io::Result<char>> {
+        self.inner.read_char()
+    }
+    pub fn peek_char(&mut self) -> Option<std::io::Result<char>> {
+        self.inner.peek_char()
+    }
+    pub fn put_back_char(&mut self, c: char) {
+        self.inner.put_back_char(c)
+    }
+    pub fn consume(&mut self, n: usize) {
+        self.inner.consume(n)
+    }
+    pub fn read_bytes(&mut self, buf: &mut [u8]) -> std::io::Result<usize> {
+        std::io::Read::read(&mut self.inner, buf)
+    }
+    pub fn buffer_len(&self) -> usize {
+        self.inner.rem_buf_len()
+    }
+}
+
+/// Resource footprint of a machine (C35): name/value pairs.
+pub fn footprint(m: &crate::Machine, atom_prefix: &str) -> Vec<(&'static str, u64)> {
+    m.verif_footprint(atom_prefix)
+}
